@@ -14,13 +14,15 @@ LEVEL = "exploration"
 BUDGET = {"quick": 60, "thorough": 900}
 MIN_BUDGET = {"quick": 25, "thorough": 120}
 RULE = ("2-3 processes concurrently calling create_table(schema A / schema B / no schema), Table(...), load_table and a "
-        "first append_records (with or without a schema argument), each followed by an observation of the table "
+        "first append_records (with or without a schema argument A / B; through a handle that initialises an absent table "
+        "or through one opened with create_if_not_exists=False), each followed by an observation of the table "
         "identity through its own handle; initial state in {absent, healthy with data, pointer lost, v0 metadata "
         "written but pointer missing, directories only}; local and CAS-S3; scheduler random/PCT at seam granularity. "
         "Oracle: every version ever named by the pointer carries one table uuid (the pre-existing one if a table "
         "existed); persisted schema and committed rows of an existing table never change except by acknowledged "
         "appends (refinement at every flip); every caller ends on that uuid; create/open never raise on an existing "
-        "or racing table; schema-less appends succeed iff a schema is persisted and never write column-less rows. "
+        "or racing table; schema-less appends succeed iff a schema is persisted and never write column-less rows; a table that "
+        "ends with a persisted schema is readable by the library's own scan (no file written under another schema got in). "
         "Distinct = SHA-1 of write/lock/pointer events; non-trivial = two callers overlapped in time and at least "
         "one initialisation or commit happened.")
 ASSUMPTIONS = common.BASE_ASSUMPTIONS + [
